@@ -4,8 +4,10 @@ import (
 	"context"
 	"errors"
 	"fmt"
+	"math/big"
 	"runtime"
 	"sort"
+	"strconv"
 	"strings"
 	stdsync "sync"
 	"testing"
@@ -13,6 +15,7 @@ import (
 
 	"perun.network/go-perun/channel"
 	pmulti "perun.network/go-perun/channel/multi"
+	"perun.network/go-perun/wallet"
 
 	"verif/sim/kernel"
 	"verif/sim/world"
@@ -332,6 +335,19 @@ func (h *harness) run() {
 			dur = 1
 		}
 		state := &channel.State{Version: uint64(id), Allocation: channel.Allocation{Assets: assets}}
+		if st.Has("bal0") {
+			// (older replay files carry no balances: the allocation then lists assets only)
+			for j := range assets {
+				v := st.Int("bal" + strconv.Itoa(j))
+				state.Balances = append(state.Balances, []channel.Bal{big.NewInt(v / 16), big.NewInt(v % 16)})
+				state.Backends = append(state.Backends, wallet.BackendID(0))
+			}
+		}
+		reqIdx, reqSec := channel.Index(st.Int("idx")&1), st.Int("sec") == 1
+		var subStates channel.StateMap
+		if st.Int("subs") == 1 {
+			subStates = channel.StateMap{channel.ID{9}: &channel.State{Version: 1}}
+		}
 		params := &channel.Params{ChallengeDuration: uint64(dur)}
 		call := func() {
 			ctx, cancel := context.WithTimeout(context.Background(), 10*time.Second)
@@ -343,14 +359,14 @@ func (h *harness) run() {
 			h.mu.Unlock()
 			h.event("drv", top.method+".inv", id, "#%d assets on ledgers %v ego=%d", top.start, top.assets, top.ego)
 			var err error
-			req := channel.AdjudicatorReq{Params: params, Tx: channel.Transaction{State: state}}
+			req := channel.AdjudicatorReq{Params: params, Tx: channel.Transaction{State: state}, Idx: reqIdx, Secondary: reqSec}
 			switch top.method {
 			case "register":
 				err = adj.Register(ctx, req, nil)
 			case "progress":
 				err = adj.Progress(ctx, channel.ProgressReq{AdjudicatorReq: req, NewState: state})
 			case "withdraw":
-				err = adj.Withdraw(ctx, req, nil)
+				err = adj.Withdraw(ctx, req, subStates)
 			case "fund":
 				err = newFunder(top.ego).Fund(ctx, channel.FundingReq{Params: params, State: state})
 			}
